@@ -57,6 +57,9 @@ pub struct RenderOpts {
     pub xq_cap: usize,
     /// after every close: enum case queries on every id of every enum type
     pub cases: bool,
+    /// 0 = plain; 2 = the condition closure dumps the public and private state at every
+    /// evaluation (C04 observes the model wherever close_until evaluates its condition)
+    pub observe: u8,
 }
 
 /// One rendered command with its origin.
@@ -85,8 +88,8 @@ pub enum CmdKind {
 
 pub fn close_cmd(o: &RenderOpts) -> String {
     match o.id_bound {
-        Some(n) => format!("cu 0 or ids {} evals {}", n, o.max_evals),
-        None => format!("cu 0 evals {}", o.max_evals),
+        Some(n) => format!("cu {} or ids {} evals {}", o.observe, n, o.max_evals),
+        None => format!("cu {} evals {}", o.observe, o.max_evals),
     }
 }
 
@@ -143,7 +146,7 @@ pub fn render(p: &Program, h: &[Op], o: &RenderOpts) -> Vec<Cmd> {
             }
             Op::CloseSteps { k } => {
                 if o.with_steps {
-                    out.push(Cmd { text: format!("cu 0 evals {}", k), kind: CmdKind::CloseSteps(*k as usize) });
+                    out.push(Cmd { text: format!("cu {} evals {}", o.observe, k), kind: CmdKind::CloseSteps(*k as usize) });
                     after_close(p, o, &mut out);
                 }
             }
